@@ -38,6 +38,22 @@ Fixpoint last_rej (out : oracle) (tr : list event) (acc : option err) : option e
   | _ :: r => last_rej out r acc
   end.
 
+Definition is_na (o : outcome) : bool := match o with NA => true | _ => false end.
+
+(* the request presented credentials for the whole alternative (every scheme has an authenticator and found its
+   credentials in the request) and one of its schemes rejected them. Stated over the DECLARED alternative, not
+   over the calls that were made: a scheme that was never asked although the alternative required it counts. *)
+Definition presented_and_rejected (out : oracle) (l : list sreq) : bool :=
+  forallb (fun s => sreg s && negb (is_na (out (sname s) (sscopes s)))) l &&
+  existsb (fun s => is_rej (out (sname s) (sscopes s))) l.
+
+Definition rejected_declared (out : oracle) (alts : list alt) : bool :=
+  existsb (fun a => match a with Reqs l => presented_and_rejected out l | Anon => false end) alts.
+
+(* no scheme rejected credentials that were presented: none of those asked, and none in an alternative that applied *)
+Definition nothing_rejected (out : oracle) (alts : list alt) (tr : list event) : bool :=
+  negb (rejected_in out tr) && negb (rejected_declared out alts).
+
 Definition az_accepts (az : authorizer) (p : option principal) : bool :=
   match az with None => true | Some f => negb (is_some (f p)) end.
 
@@ -55,7 +71,7 @@ Definition handle_justified (out : oracle) (alts : list alt) (az : authorizer) (
                       end) alts
     && az_accepts az p
   | None =>
-    allows_anon alts && is_nil sc && negb (rejected_in out tr) && az_accepts az None
+    allows_anon alts && is_nil sc && nothing_rejected out alts tr && az_accepts az None
   end.
 
 (* some justification exists for letting the request through at all (used for Bind and for the
@@ -69,7 +85,7 @@ Definition admissible (out : oracle) (alts : list alt) (az : authorizer) (tr : l
                                                   end) l
                     | Anon => false
                     end) alts
-  || (allows_anon alts && negb (rejected_in out tr) && az_accepts az None).
+  || (allows_anon alts && nothing_rejected out alts tr && az_accepts az None).
 
 Definition is_bind (ev : event) : bool := match ev with Bind => true | _ => false end.
 Definition is_handle (ev : event) : bool := match ev with Handle _ _ => true | _ => false end.
@@ -89,26 +105,35 @@ Definition err_eqb (a b : err) : bool :=
   end.
 
 (* the error a refused request must be answered with: Some (Some e) = exactly e; Some None = a 401;
-   None = the trace is inconsistent (an authorizer was consulted that does not refuse) *)
-Definition expected_refusal (out : oracle) (az : authorizer) (tr : list event) : option (option err) :=
+   None = the trace is inconsistent (an authorizer was consulted that does not refuse, or was consulted for the
+   nil principal although presented credentials were rejected, or nothing reports a rejection although an
+   alternative that applied was rejected) *)
+Definition expected_refusal (out : oracle) (alts : list alt) (az : authorizer) (tr : list event) : option (option err) :=
   match az_called tr with
   | Some p =>                                   (* the authorizer was consulted: its error, 403 unless it has a status *)
     match az with
-    | Some f => match f p with Some e' => Some (Some (az_error e')) | None => None end
+    | Some f => match f p with
+                | Some e' => if is_some p || nothing_rejected out alts tr then Some (Some (az_error e')) else None
+                | None => None
+                end
     | None => None
     end
-  | None => Some (last_rej out tr None)         (* the rejecting scheme's error; 401 when nothing applied *)
+  | None =>
+    match last_rej out tr None with
+    | Some e => Some (Some e)                   (* the rejecting scheme's error *)
+    | None => if rejected_declared out alts then None else Some None   (* 401 when nothing that applied was rejected *)
+    end
   end.
 
-Definition refusal_ok (out : oracle) (az : authorizer) (tr : list event) (e : err) : bool :=
-  match expected_refusal out az tr with
+Definition refusal_ok (out : oracle) (alts : list alt) (az : authorizer) (tr : list event) (e : err) : bool :=
+  match expected_refusal out alts az tr with
   | Some (Some e') => err_eqb e e'
   | Some None => Nat.eqb (code_of e) 401
   | None => false
   end.
 
-Definition response_ok (out : oracle) (az : authorizer) (tr : list event) (c m : nat) : bool :=
-  match expected_refusal out az tr with
+Definition response_ok (out : oracle) (alts : list alt) (az : authorizer) (tr : list event) (c m : nat) : bool :=
+  match expected_refusal out alts az tr with
   | Some (Some e') => Nat.eqb c (code_of e') && Nat.eqb m (msg_of e')
   | Some None => Nat.eqb c 401
   | None => false
@@ -132,7 +157,7 @@ Definition sec_ok (out : oracle) (alts : list alt) (az : authorizer) (bind_ok st
       (* every other request: refused with the right error, and neither binding nor the handler ran *)
       negb (existsb is_handle tr) &&
       match responded tr with
-      | Some (c, m) => response_ok out az tr c m
+      | Some (c, m) => response_ok out alts az tr c m
       | None => false
       end)).
 
@@ -141,7 +166,7 @@ Definition authorize_ok (out : oracle) (alts : list alt) (az : authorizer) (tr :
   is_nil alts ||
   match r with
   | Granted p sc => handle_justified out alts az tr p sc
-  | Refused e => refusal_ok out az tr e
+  | Refused e => refusal_ok out alts az tr e
   | AuthPanic => false
   end.
 
@@ -153,6 +178,33 @@ Definition authenticate_ok (out : oracle) (alts : list alt) (tr : list event)
   | None =>
     match usr with
     | Some q => applies && existsb (fun a => match a with Reqs l => satisfied out l && yields out l q | Anon => false end) alts
-    | None => negb (rejected_in out tr) && (negb applies || allows_anon alts)
+    | None => nothing_rejected out alts tr && (negb applies || allows_anon alts)
     end
   end.
+
+(* ---- the library's own authenticators over a table-driven validation callback ----
+   security.BearerAuth / BearerAuthCtx hand the token and the scopes required by the operation to the callback;
+   APIKeyAuth / APIKeyAuthCtx / BasicAuth / BasicAuthCtx hand over the credential only. What a scheme answers for a
+   request is a function of the credential the request carries for it, the scopes the operation requires and
+   the callback's table - and of nothing else (no earlier request, no other operation). *)
+Record grant := mk_grant { g_scheme : nat; g_token : nat; g_princ : option principal; g_scopes : list nat }.
+
+Definition cred_oracle (scoped : nat -> bool) (unk insuf : nat -> err) (grants : list grant)
+           (creds : list (nat * nat)) : oracle :=
+  fun s sc =>
+    match find (fun c => Nat.eqb (fst c) s) creds with
+    | None => NA                                       (* no credentials for this scheme in the request *)
+    | Some (_, tok) =>
+      match find (fun g => Nat.eqb (g_scheme g) s && Nat.eqb (g_token g) tok) grants with
+      | None => Rej (unk s)                            (* unknown credential *)
+      | Some g => if negb (scoped s) || subset sc (g_scopes g) then Acc (g_princ g) else Rej (insuf s)
+      end
+    end.
+
+(* ---- a history: several requests served by ONE api instance. Each request is answered as the same request is
+   answered by a fresh instance: the model of a history is the single-request model mapped over the list. ---- *)
+Record hreq := mk_hreq { hq_op : nat; hq_creds : list (nat * nat); hq_bind : bool }.
+
+Definition history (oracle_for : list (nat * nat) -> oracle) (ops : list (list alt)) (az : authorizer)
+           (calls : list hreq) : list (list event) :=
+  map (fun c => secure_handler (oracle_for (hq_creds c)) (nth (hq_op c) ops []) az (hq_bind c)) calls.
